@@ -41,7 +41,7 @@ type trSys struct {
 	violated   bool
 	keep       bool // stalled threads stay stalled across driver events
 	kills      int
-	nbusy      int // long calls started and not yet released
+	nbusy      int           // long calls started and not yet released
 	idle       time.Duration // the Transport's IdleConnTimeout
 }
 
@@ -84,14 +84,14 @@ func newTrSys(x *X, prop string, maxConns, maxIdle int) *trSys {
 		t.start(a)
 	}
 	vs.Quiesce()
-	so := srvOpts{bufSize: 64}
-	t.tr = &rpc.Transport{MaxConnsPerHost: maxConns, MaxIdleConnsPerHost: maxIdle, KeepAlive: tKeepAlive, IdleConnTimeout: trIdle, Options: so.options(t.n, 64)}
+	so := trSrvOpts
+	t.tr = &rpc.Transport{MaxConnsPerHost: maxConns, MaxIdleConnsPerHost: maxIdle, KeepAlive: trKeepAlive, IdleConnTimeout: trIdle, Options: so.options(t.n, 64)}
 	t.n.onDial = func(addr string) { t.checkLimits("at dial") }
 	return t
 }
 
 func (t *trSys) start(a string) {
-	srv, _ := startListener(t.n, t.w[a], a, srvOpts{bufSize: 64}, false)
+	srv, _ := startListener(t.n, t.w[a], a, trSrvOpts, false)
 	t.srv[a] = srv
 	t.up[a] = true
 }
@@ -450,7 +450,13 @@ func (t *trSys) shutdown() {
 // several KeepAlive periods then fit into one idle period).
 var trIdle = tIdle
 
-var trLimits = [][2]int{{1, 1}, {2, 1}, {2, 2}, {0, 0}, {1, 3}, {3, 2}}
+// trSrvOpts: server options (and, through them, the codecs of the Transport) of the systems made by newTrSys.
+var trSrvOpts = srvOpts{bufSize: 64}
+
+// trKeepAlive is the KeepAlive of the Transports made by newTrSys.
+var trKeepAlive = tKeepAlive
+
+var trLimits = [][2]int{{1, 1}, {2, 1}, {2, 2}, {0, 0}, {1, 3}, {3, 2}, {0, 2}}
 
 // sequential driver: every event sequence of length L over the given alphabet
 func trSeqBody(prop string, L int, alphabet []int, limits [][2]int, prefix ...int) func(x *X) {
@@ -604,6 +610,10 @@ func init() {
 			register(&Scenario{Prop: p, Name: "c" + p[1:] + "/many-idle-L4", Quick: []Bound{}, Thorough: []Bound{{0, 0}}, Body: trSeqBodyIdle(p, manyIdles, 4, manyAb, manyLim, pre...), MaxSteps: 1000000, BudgetQ: 60, BudgetT: 200, OnlyKeys: keys})
 		}
 	}
+	// a server that went away and came back while its pooled connection was unused: whatever the Transport then
+	// does with the old connection, Transport.Close leaves no socket open
+	c20r := []int{evCallA, evGoA, evTick, evPastKeepAlive, evCloseIdle, evCallB}
+	register(&Scenario{Prop: "C20", Name: "c20/transport-after-server-restart-L3", Quick: []Bound{{0, 0}}, Thorough: []Bound{{1, 0}}, Body: trSeqBody("C20", 3, c20r, [][2]int{{1, 1}, {2, 2}, {3, 2}}, evCallA, evKillA, evRestartA), MaxSteps: 200000, OnlyKeys: []string{"C20/", "C15/close-leaves-connections", "panic/", "livelock/"}})
 	c15r := []int{evCallA, evRefusedStreamA, evTick, evPastKeepAlive, evPastIdle, evCloseIdle}
 	register(&Scenario{Prop: "C15", Name: "c15/after-refused-stream-L3", Quick: []Bound{{0, 0}}, Thorough: []Bound{{1, 0}}, Body: trSeqBody("C15", 3, c15r, trLimits[:2], evRefusedStreamA), MaxSteps: 200000})
 	register(&Scenario{Prop: "C15", Name: "c15/concurrent-first-callers", Quick: []Bound{{1, 0}}, Thorough: []Bound{{2, 0}}, Body: trConcBody("C15", trLimits[:3]), MaxSteps: 200000, BudgetQ: 25})
@@ -705,4 +715,42 @@ func init() {
 		}
 		register(&Scenario{Prop: p, Name: "c" + p[1:] + "/many-connections", Quick: []Bound{{0, 0}}, Thorough: []Bound{{1, 0}}, Body: trManyBody(p), MaxSteps: 400000, BudgetQ: 15, BudgetT: 200, OnlyKeys: keys, MinHB: 1})
 	}
+}
+
+// "forever": KeepAlive and / or IdleConnTimeout set to the largest Duration.  A connection that
+// has just been used is neither retired nor closed by the next housekeeping ticks: it is still
+// open and the next call uses it (no new dial).
+func c15Forever(x *X) {
+	which := x.Choose(3)
+	const forever = time.Duration(1<<63 - 1)
+	switch which {
+	case 0:
+		trKeepAlive = forever
+	case 1:
+		trIdle = forever
+	case 2:
+		trKeepAlive, trIdle = forever, forever
+	}
+	defer func() { trKeepAlive, trIdle = tKeepAlive, tIdle }()
+	lim := [][2]int{{1, 1}, {2, 2}}[x.Choose(2)]
+	t := newTrSys(x, "C15", lim[0], lim[1])
+	t.idle = tIdle // (how far the scenario's own ">idle" steps advance the clock)
+	t.call("a", formCall)
+	for i := 0; i < 8; i++ {
+		t.advance(tTick, "tick")
+		if t.n.live["a"] != 1 {
+			x.Fail("C15/closed-before-its-time", "KeepAlive/IdleConnTimeout set %d (0: KeepAlive, 1: IdleConnTimeout, 2: both) to the largest duration: %d ticks after its last use the connection is closed (open connections: %d)", which, i+1, t.n.live["a"])
+			break
+		}
+	}
+	t.call("a", formCall)
+	if which != 1 && (t.n.live["a"] != t.n.dials["a"] || t.n.dials["a"] > lim[0]) {
+		x.Fail("C15/closed-before-its-time", "KeepAlive is the largest duration: after 8 ticks and one more call %d connections were dialled and %d are open (MaxConnsPerHost %d)", t.n.dials["a"], t.n.live["a"], lim[0])
+	}
+	x.Outcome("which=%d lim=%v dials=%d", which, lim, t.n.dials["a"])
+	t.shutdown()
+}
+
+func init() {
+	register(&Scenario{Prop: "C15", Name: "c15/forever-durations", Quick: []Bound{{0, 0}, {1, 0}}, Thorough: []Bound{{2, 0}}, Body: c15Forever, MaxSteps: 200000, BudgetQ: 10})
 }
